@@ -72,7 +72,8 @@ def proposal_filter(cx):
                 neutral.add(w.block)
         cx.check(bool(neutral), key + ":neutral-site", "the MsgPropose arm overwrites a refused conf change (`*e = Entry::default()`)", s)
         decode = {c.block for sp, c in cx.prog.calls_out[fn.key] if c.kind == "call" and sp.endswith("merge_from_bytes")}
-        heads = {c.block for sp, c in cx.prog.calls_out[fn.key] if c.kind == "call" and sp.endswith("::next") and "Enumerate" in sp}
+        heads = {c.block for sp, c in cx.prog.calls_out[fn.key] if c.kind == "call" and sp.endswith("::next") and "Iterator" in sp and c.block in cx.prog.A(fn).reach
+                 and any(l[0] == "in" and l[2] == frozenset(["MsgPropose"]) for l in cx.guard_lits(c))}
         appends = {c.block for sp, c in cx.prog.calls_out[fn.key] if c.kind == "call" and sp.endswith("Raft::append_entry")}
         cx.check(bool(decode) and bool(heads), key + ":anchors", "conf-change decoding and the entry loop were located")
         escaped = False
